@@ -47,6 +47,23 @@ def in_base(t):
 broken_existing = sorted(t for t in newfail if in_base(t))
 demo_fail = sorted(t for t in newfail if not in_base(t))
 res['demo_tests_failing_with_patch'] = demo_fail
+if broken_existing:
+    # timing-based tests (10 ms cache lifetime) flake on a loaded machine: re-run each failing baseline test alone,
+    # twice; only a test that keeps failing counts against the seed
+    still_broken = []
+    for t in broken_existing:
+        nm = t.split('::')[-1]
+        okc = False
+        for _ in range(2):
+            q = sh('%s cargo test --workspace --offline -- %s 2>&1' % (env, nm), cwd=wt, timeout=3600)
+            o2, b2 = parse(q.stdout)
+            if t in o2 and t not in b2:
+                okc = True
+                break
+        if not okc:
+            still_broken.append(t)
+    res['flaky_reruns'] = [t for t in broken_existing if t not in still_broken]
+    broken_existing = still_broken
 if broken_existing: finish(False, 'existing tests fail with the patch: %s' % broken_existing)
 if not demo_fail: finish(False, 'no demo test fails with the patch')
 if len(ok1) < 150: finish(False, 'suite incomplete (%d passed)' % len(ok1))
